@@ -157,9 +157,12 @@ structure NetView where
 every access); extensionally `n.out`, `n.inn` (MTProofs.Graph `view_out`, `view_inn`) -/
 def Net.view {β : Type} (n : Net β) : NetView :=
   let outA : Array (Array (List Nat)) :=
-    Array.ofFn (n := n.nL) fun a => Array.ofFn (n := n.nV) fun i => n.out a.val i.val
+    ((List.range n.nL).map fun a => ((List.range n.nV).map fun i => n.out a i).toArray).toArray
+  -- in-edge lists exist for directed graphs only (undirected code never asks for them)
   let innA : Array (Array (List Nat)) :=
-    Array.ofFn (n := n.nL) fun a => Array.ofFn (n := n.nV) fun i => n.inn a.val i.val
+    if n.directed then
+      ((List.range n.nL).map fun a => ((List.range n.nV).map fun i => n.inn a i).toArray).toArray
+    else #[]
   { directed := n.directed, nL := n.nL,
     out := fun a i => (outA.getD a #[]).getD i [],
     inn := fun a i => (innA.getD a #[]).getD i [],
